@@ -63,11 +63,18 @@ def build(names, tag):
     Y = Variable('Y')
     ll = None
     for k, n in enumerate(names):
-        b = Beta(n, 0.0, None, None, 0)
-        term = -((b - X * (k + 1)) ** 2)
+        b = Beta(n, 0.3 + 0.1 * k, None, None, 0)
+        if n == sorted(names)[-1]:
+            term = -((b + 0.9 - X * 0.1) ** 2)       # optimum of the last parameter near -0.88, next to the singularity at -1
+        else:
+            term = -((b - X * (k + 1)) ** 2)
         ll = term if ll is None else ll + term
-    b0 = Beta(names[0], 0.0, None, None, 0)
+    b0 = Beta(names[0], 0.3, None, None, 0)
     ll = ll - exp(b0 * Y) * 1e-300
+    # a term with a finite value but an infinite derivative at b_last = -1 (a point with non-finite gradient whose
+    # likelihood is NOT low), zero contribution elsewhere up to 1e-3
+    bl = Beta(sorted(names)[-1], 0.3 + 0.1 * names.index(sorted(names)[-1]), None, None, 0)
+    ll = ll + ((bl + 1.0) ** 0.5) * 0.001
     B = bio.BIOGEME(d, ll)
     B.modelName = tag
     return B
@@ -114,16 +121,38 @@ def oracle_file(sorted_names, text, evals):
 def gen_history(rng, k):
     n = rng.randint(1, 8)
     pts = []
+    if rng.random() < 0.3:
+        # poor start, then a high point with infinite gradient, then points in between (must be saved)
+        opt = [0.16 * (j + 1) for j in range(k)]
+        opt[-1] = -0.88
+        pts.append([0.5] * k)
+        sing = list(opt)
+        sing[-1] = -1.0
+        pts.append(sing)
+        mid = list(opt)
+        mid[-1] = -0.5
+        pts.append(mid)
+        mid2 = list(opt)
+        mid2[-1] = -0.8
+        pts.append(mid2)
     for i in range(n):
         kind = rng.choice(['rand', 'rand', 'rand', 'repeat', 'nonfinite', 'better'])
         if kind == 'repeat' and pts:
             pts.append(list(rng.choice(pts)))
         elif kind == 'nonfinite':
             x = [rng.uniform(-1, 0.9) for _ in range(k)]
-            x[0] = rng.choice([2.0, 5.0, 1.5])
+            if rng.random() < 0.5:
+                x[0] = rng.choice([2.0, 5.0, 1.5])      # overflow: f = -inf
+            else:
+                x = [0.16 * (j + 1) for j in range(k)]   # near the optimum in the other coordinates ...
+                x[-1] = -1.0                              # ... and on the singularity: f finite and high, gradient infinite
+                if k == 1:
+                    pass
             pts.append(x)
         elif kind == 'better':
-            pts.append([0.16 * (j + 1) + rng.uniform(-0.05, 0.05) for j in range(k)])
+            x = [0.16 * (j + 1) + rng.uniform(-0.05, 0.05) for j in range(k)]
+            x[-1] = -0.88 + rng.uniform(-0.05, 0.05)
+            pts.append(x)
         else:
             pts.append([rng.choice([rng.uniform(-1, 0.9), rng.randint(-8, 7) / 8.0]) for _ in range(k)])
     return pts
@@ -313,6 +342,9 @@ CORPUS = [
     {'names': ['zeta', 'alpha'], 'pts': [[0.0, 0.0], [0.16, 0.32], [0.1, 0.1], [2.0, 0.0], [0.5, 0.5]]},
     # F16: '=' in a name
     {'names': ['asc=1', 'b'], 'pts': [[0.0, 0.0], [0.1, 0.1]]},
+    # a high-likelihood point with infinite gradient must not raise the best-so-far marker
+    {'names': ['b'], 'pts': [[0.5], [-1.0], [-0.5], [-0.8]]},
+    {'names': ['zeta', 'alpha'], 'pts': [[0.5, 0.5], [0.16, -1.0], [0.16, -0.5], [0.16, -0.8]]},
 ]
 
 
@@ -421,10 +453,10 @@ def check(ctx) -> Result:
         tagc += 1
         crash_experiment(ctx, res, names, f'm{tagc}', x_old, x_new)
     # a real estimate() starts from the file (spy on the first evaluated point)
-    for i in range(ctx.n(1, 6)):
+    for i in range(ctx.n(3, 10)):
         k = rng.randint(1, 3)
         names = rng.sample(NAME_POOL, k)
-        estimate_restart(ctx, res, names, [rng.randint(-6, 6) / 8.0 for _ in range(k)], f'e{i}')
+        estimate_restart(ctx, res, names, [rng.choice([0.0, 0.0, rng.randint(-6, 6) / 8.0]) for _ in range(k)], f'e{i}')
     ctx.batch.flush()
     return res
 
